@@ -112,6 +112,13 @@ def step (st : St) : List String → St × String
     let sp := st.spec.advance s!"sr{natOr i}" (intOr wm)
     ({ st with reg := r.1, spec := sp.1 },
       withSpec (kfLabelFor r.2 sp.2) s!"c={r.1.wm} f={showFired r.2}" s!"c={sp.1.wm} f={showFiredSet sp.2}")
+  -- `advk`: the consumer of the iterator stops after k timers (as `handleWatermark` does when a batch fails) and the same
+  -- report is then drained: together the two calls fire what one drained call fires, each timer once
+  | ["advk", i, wm, _] =>
+    let r := st.reg.advance s!"sr{natOr i}" (intOr wm)
+    let sp := st.spec.advance s!"sr{natOr i}" (intOr wm)
+    ({ st with reg := r.1, spec := sp.1 },
+      withSpec (kfLabelFor r.2 sp.2) s!"c={r.1.wm} f={showFired r.2}" s!"c={sp.1.wm} f={showFiredSet sp.2}")
   | ["earliest"] =>
     match st.reg.store.earliest with
     -- D51 at `GetEarliest`: one side's earliest timer is before 1970 (the code ranks it last, or still holds it)
